@@ -12,7 +12,7 @@ from vf.gen.build import build
 IMG = GL.Profile(max_surfs=5, shapes=['standard', 'standard', 'standard', 'even_asphere'], allow_mirror=False,
                  keep_edges=True, rho_min=3.0, steep_prob=0.0, ap_types=['EPD', 'imageFNO', 'objectNA'], max_field_deg=10.0,
                  allow_vignetting=False, max_n=2.0, zero_thickness=False, image_refracts=False, positive_power=True,
-                 allow_apertures=True)
+                 allow_apertures=True, curved_image=True)
 
 f = st.floats
 ANALYSES = ['spot', 'rayfan', 'encircled', 'rms_field', 'distortion', 'grid_distortion', 'field_curvature',
@@ -47,13 +47,14 @@ class C12(Check):
             'wavelengths, or explicit lists used. Distinct = distinct case hashes.')
     assumptions = ['the independent rays come from the library\'s own tracer on a never-analysed twin (C02 decides the '
                    'tracer); what is decided here is that each analysis is the documented function of those rays',
-                   'Coddington clause for refracting spheres/planes (no mirrors, no aspheres), tolerance '
-                   '1e-5 |dz| + 1e-7 L (the parabasal pair has delta = 1e-5)',
+                   'Coddington clause (generalised to the local tangential/sagittal curvatures of conics and even aspheres) '
+                   'for centred refracting systems, tolerance 1e-5 |dz| + 1e-7 L (the parabasal pair has delta = 1e-5); '
+                   'with a curved image the foci are also compared, in absolute z, with those of the same lens with a plane image',
                    'centroid clauses are judged when the reference wavelength is unambiguous (wavelengths = "all", or an '
                    'explicit list whose entry at the lens\'s primary index is the primary wavelength)']
 
     def budget(self, tier):
-        return (60, 8) if tier == 'quick' else (900, 16)
+        return (150, 8) if tier == 'quick' else (900, 16)
 
     def strategy(self, tier):
         return st.fixed_dictionaries(dict(spec=GL.lens_spec(IMG, min_surfs=2), analysis=st.sampled_from(ANALYSES),
@@ -154,6 +155,14 @@ class C12(Check):
         cen = sd.centroid()
         rms = sd.rms_spot_radius()
         geo = sd.geometric_spot_radius()
+        # querying the radii must not change the stored spot data or the centroid (history on the analysis object)
+        cen2 = sd.centroid()
+        out.expect('spot_queries_do_not_change_data', all(
+            np.array_equal(np.asarray(sd.data[i][j][k], dtype=float), ref[i][j][q][-1], equal_nan=True) or
+            np.allclose(np.asarray(sd.data[i][j][k], dtype=float), ref[i][j][q][-1], rtol=1e-12, atol=1e-12 * self.Lsc,
+                        equal_nan=True)
+            for i in range(len(F)) for j in range(len(Wl)) for k, q in enumerate(('x', 'y', 'intensity'))) and
+            np.array_equal(np.asarray(cen, dtype=float), np.asarray(cen2, dtype=float), equal_nan=True))
         for i in range(len(F)):
             cx, cy = float(np.mean(ref[i][pi]['x'][-1])), float(np.mean(ref[i][pi]['y'][-1]))
             out.close('spot_centroid', [float(cen[i][0]), float(cen[i][1])], [cx, cy], atol=1e-12 * self.Lsc, rtol=1e-12)
@@ -261,6 +270,9 @@ class C12(Check):
 
     def field_ok(self, out, spec, ps, mf):
         """distortion needs a field and a paraxial image height that is large against the trace's rounding"""
+        if spec['img'].get('shape'):
+            out.cls('distortion_on_curved_image_not_judged')     # paraxial height "on the actual image surface" is ambiguous
+            return False
         if mf < 1e-3:
             out.cls('no_field')
             return False
@@ -348,13 +360,25 @@ class C12(Check):
 
     def a_field_curvature(self, case, out, spec, o, tw, ps, flds, wls, F, Wl, prim, lens_w):
         from optiland.analysis import FieldCurvature
+        from vf.ref import trace as RT
         npts = 3 + case['n'] % 4
         fc = FieldCurvature(o, wavelengths=wls, num_points=npts)
-        simple = all(s['type'] == 'standard' and s['k'] == 0 and s['mat']['kind'] != 'mirror' for s in spec['surfs'])
-        if not simple:
-            out.cls('coddington_not_applicable')
-            return
         Hy = np.linspace(0, 1, npts)
+        near_parabola = any(s['type'] == 'standard' and s['R'] != GL.INF and abs(1 + s['k']) < 0.05 for s in spec['surfs'])
+        if near_parabola and out.kf_open('C12-parabola-cancellation'):
+            out.region('C12-parabola-cancellation')
+            return
+        # metamorphic: the absolute z of a focus does not depend on the image surface the distance is measured from
+        flat = None
+        if spec['img'].get('shape'):
+            fspec = copy.deepcopy(spec)
+            fspec['img'].pop('shape')
+            of = build(fspec)
+            fcf = FieldCurvature(of, wavelengths=wls, num_points=npts)
+            flat = (of, fcf)
+        meridional = all(s['type'] in ('standard', 'even_asphere') and s['mat']['kind'] != 'mirror' and
+                         not (s['dx'] or s['dy'] or s['rx'] or s['ry']) for s in spec['surfs'])
+        models = RT.surface_models(spec)
         for j, w in enumerate(Wl):
             ns, _ = GL.media(spec, w)
             tw.trace_generic(np.zeros(npts), Hy.copy(), np.zeros(npts), np.zeros(npts), w)
@@ -362,6 +386,27 @@ class C12(Check):
             P = [np.array([sg.x[k], sg.y[k], sg.z[k]], dtype=float) for k in range(sg.num_surfaces)]
             D = [np.array([sg.L[k], sg.M[k], sg.N[k]], dtype=float) for k in range(sg.num_surfaces)]
             K = len(spec['surfs'])
+            got_t = np.asarray(fc.data[j][0], dtype=float)
+            got_s = np.asarray(fc.data[j][1], dtype=float)
+            if flat is not None:
+                of, fcf = flat
+                noise0 = self.pair_noise(tw, Hy, w)
+                if near_parabola:
+                    noise0 = {k: np.zeros_like(v) for k, v in noise0.items()}
+                of.trace_generic(np.zeros(npts), Hy.copy(), np.zeros(npts), np.zeros(npts), w)
+                zf = np.array(of.surface_group.z[-1], dtype=float)
+                zc = P[K + 1][2]
+                for name, g1, g0 in (('tangential', got_t, np.asarray(fcf.data[j][0], dtype=float)),
+                                     ('sagittal', got_s, np.asarray(fcf.data[j][1], dtype=float))):
+                    fin = np.isfinite(g1) & np.isfinite(g0) & np.isfinite(zc) & np.isfinite(zf) & np.isfinite(noise0[name]) & \
+                        (np.abs(g0) < 1e6 * self.Lsc)
+                    out.close('focus_z_independent_of_image_shape', (zc + g1)[fin], (zf + g0)[fin],
+                              atol=1e-7 * self.Lsc + 1e-5 * float(np.max(np.abs(zc - zf)[fin], initial=0.0)),
+                              rtol=1.0, scale=1e-5 * np.abs(g0[fin]) + 20 * noise0[name][fin], curve=name, wl=j)
+                out.cls('focus_vs_flat_image_checked')
+            if not meridional:
+                out.cls('coddington_not_applicable')
+                continue
             finite = spec['obj']['t'] != GL.INF
             with np.errstate(all='ignore'):
                 if finite:
@@ -371,21 +416,27 @@ class C12(Check):
                     inv_s, inv_t = np.zeros(npts), np.zeros(npts)
                 for k in range(1, K + 1):
                     q = spec['surfs'][k - 1]
-                    c = 0.0 if q['R'] == GL.INF else 1.0 / q['R']
+                    shape, frame = models[k - 1][0], models[k - 1][1]
                     n1, n2 = ns[k - 1], ns[k]
-                    # unit normal of the sphere at the chief-ray point (pointing along +z at the vertex)
-                    if c != 0:
-                        cen = np.array([0.0, 0.0, tw.surface_group.positions[k][0] + q['R']])
-                        nrm = (cen[:, None] - P[k]) * c
-                        nrm = nrm / np.sqrt(np.sum(nrm ** 2, axis=0))
-                    else:
-                        nrm = np.array([np.zeros(npts), np.zeros(npts), np.ones(npts)])
+                    # local profile z(y) in the meridional plane: slope, tangential and sagittal curvature
+                    yl = P[k][1]
+                    z1 = shape.grad(np.zeros(npts), yl)[1]
+                    z2 = shape.c / np.sqrt(1 - (1 + shape.k) * shape.c ** 2 * yl ** 2) ** 3
+                    if shape.typ == 'even_asphere':
+                        for i, a in enumerate(shape.coef or []):
+                            e = 2 * (i + 1)
+                            z2 = z2 + a * e * (e - 1) * yl ** (e - 2)
+                    m = np.sqrt(1 + z1 ** 2)
+                    kap_t = z2 / m ** 3
+                    kap_s = np.where(np.abs(yl) > 1e-9 * max(1e-3, float(q.get('hd') or 1.0)),
+                                     z1 / np.where(yl == 0, 1.0, yl) / m, z2)
+                    nrm = np.array([np.zeros(npts), -z1 / m, 1.0 / m])
                     cosI = np.abs(np.sum(D[k - 1] * nrm, axis=0))
                     cosIp = np.abs(np.sum(D[k] * nrm, axis=0))
-                    phi = (n2 * cosIp - n1 * cosI) * c
-                    # sagittal: n'/s' = n/s + phi ; tangential: n' cos^2 I'/t' = n cos^2 I/t + phi
-                    inv_s = (n1 * inv_s + phi) / n2
-                    inv_t = (n1 * cosI ** 2 * inv_t + phi) / (n2 * cosIp ** 2)
+                    obl = n2 * cosIp - n1 * cosI
+                    # sagittal: n'/s' = n/s + obl*kap_s ; tangential: n' cos^2 I'/t' = n cos^2 I/t + obl*kap_t
+                    inv_s = (n1 * inv_s + obl * kap_s) / n2
+                    inv_t = (n1 * cosI ** 2 * inv_t + obl * kap_t) / (n2 * cosIp ** 2)
                     if k < K:
                         d = np.sqrt(np.sum((P[k + 1] - P[k]) ** 2, axis=0))
                         inv_s = 1.0 / (1.0 / inv_s - d)
@@ -394,13 +445,41 @@ class C12(Check):
                 Nimg = D[K][2]
                 dz_s = (1.0 / inv_s - dK) * Nimg
                 dz_t = (1.0 / inv_t - dK) * Nimg
-            got_t = np.asarray(fc.data[j][0], dtype=float)
-            got_s = np.asarray(fc.data[j][1], dtype=float)
+            # the rounding of a well-conditioned trace, amplified by the pair's tiny separation, is allowed for; on a
+            # near-paraboloid that amplified noise IS finding C12-parabola-cancellation and is not allowed for
+            noise = self.pair_noise(tw, Hy, w)
+            if near_parabola:
+                noise = {k: np.zeros_like(v) for k, v in noise.items()}
             for name, got, want in (('tangential', got_t, dz_t), ('sagittal', got_s, dz_s)):
-                fin = np.isfinite(want) & np.isfinite(got) & (np.abs(want) < 1e6 * self.Lsc)
-                out.close('field_curvature_is_coddington_focus', got[fin], want[fin], atol=1e-7 * self.Lsc, rtol=1e-5,
-                          curve=name, wl=j)
-        out.cls('coddington_checked')
+                fin = np.isfinite(want) & np.isfinite(got) & (np.abs(want) < 1e6 * self.Lsc) & np.isfinite(noise[name])
+                out.close('field_curvature_is_coddington_focus', got[fin], want[fin], atol=1e-7 * self.Lsc, rtol=1.0,
+                          scale=1e-5 * np.abs(want[fin]) + 10 * noise[name][fin], curve=name, wl=j)
+                if np.any(10 * noise[name][fin] > 1e-5 * np.abs(want[fin]) + 1e-7 * self.Lsc):
+                    out.cls('parabasal_pair_rounding_dominates')
+            out.cls('coddington_checked')
+            if any(s['type'] != 'standard' or s['k'] != 0 for s in spec['surfs']):
+                out.cls('coddington_on_aspheric_profile')
+
+    def pair_noise(self, tw, Hy, w):
+        """rounding noise of a focus found by intersecting two rays +-delta from the chief ray: spread of my own
+        intersection over three nearby values of delta (the analysis uses 1e-5), per field point and plane"""
+        n = len(Hy)
+        res = {'tangential': [], 'sagittal': []}
+        for dl in (1e-5, 1.37e-5, 0.73e-5):
+            for name, (ax, cs) in (('tangential', ('y', 'M')), ('sagittal', ('x', 'L'))):
+                P = np.tile(np.array([-dl, dl]), n)
+                Z = np.zeros(2 * n)
+                tw.trace_generic(Z.copy(), np.repeat(Hy, 2), Z.copy() if name == 'tangential' else P,
+                                 P if name == 'tangential' else Z.copy(), w)
+                sg = tw.surface_group
+                a = np.array(getattr(sg, ax)[-1], dtype=float)
+                z = np.array(sg.z[-1], dtype=float)
+                c = np.array(getattr(sg, cs)[-1], dtype=float)
+                N = np.array(sg.N[-1], dtype=float)
+                with np.errstate(all='ignore'):
+                    t1 = ((a[1::2] - a[::2]) * N[1::2] - (z[1::2] - z[::2]) * c[1::2]) / (c[::2] * N[1::2] - c[1::2] * N[::2])
+                res[name].append(t1 * N[::2])
+        return {k: np.max(np.array(v), axis=0) - np.min(np.array(v), axis=0) for k, v in res.items()}
 
     def a_pupil_aberration(self, case, out, spec, o, tw, ps, flds, wls, F, Wl, prim, lens_w):
         from optiland.analysis import PupilAberration
